@@ -67,6 +67,45 @@ def _unwrap_targets(S):
     return _closure(S, out)
 
 
+def _unwrap_indirect(S):
+    """does some '~name' of S reach its array / map / tag through anything but plain rule aliases (parentheses, a socket,
+    a generic instantiation, a choice)?  Plain alias chains ('u1 = u2', 'u2 = [...]') are handled by the validators."""
+    names = set()
+
+    def walk(o):
+        if isinstance(o, dict):
+            if o.get("k") == "unwrap" and "n" in o:
+                names.add((o["n"], bool(o.get("args"))))
+            for k, v in o.items():
+                if k not in ("v", "cp"):
+                    walk(v)
+        elif isinstance(o, list):
+            for v in o:
+                walk(v)
+    walk(S)
+    for n, has_args in names:
+        if has_args:
+            return True
+        cur, seen = n, set()
+        while True:
+            if cur in seen:
+                return True
+            seen.add(cur)
+            rs = R.rules_named(S, cur)
+            if not rs:
+                break                      # prelude name (tagged prelude types) or undefined: not this shape
+            if len(rs) != 1 or rs[0]["kind"] != "type" or rs[0]["params"] or len(rs[0]["t"]["alts"]) != 1:
+                return True
+            t = rs[0]["t"]["alts"][0]
+            if t["k"] in ("arr", "map", "tag"):
+                break
+            if t["k"] == "ref" and not t["args"] and not t["n"].startswith("$"):
+                cur = t["n"]
+                continue
+            return True
+    return False
+
+
 def _operand_rules(S):
     out = set()
 
@@ -120,6 +159,24 @@ def _operand_indirection(S):
     return found[0]
 
 
+def _key_rules(S):
+    """names of rules referenced (transitively) from a member-key type"""
+    out = set()
+
+    def walk(o):
+        if isinstance(o, dict):
+            if o.get("kk") == "type":
+                out.update(R.refs_node(o["t"]))
+            for k, v in o.items():
+                if k not in ("v", "cp"):
+                    walk(v)
+        elif isinstance(o, list):
+            for v in o:
+                walk(v)
+    walk(S)
+    return _closure(S, out)
+
+
 def _forwards_param(S, n):
     """does a rule named n pass one of its generic parameters on as a generic argument?"""
     for r in R.rules_named(S, n):
@@ -170,7 +227,7 @@ def classify(fmt, st, before, after):
         site_names.add(a["name"])
     both = [before, after]
     # unwrap: the node contains '~', or the step changes a rule that a '~' resolves through
-    if (node is not None and _contains(node, {"unwrap"})) or any(site_names & _unwrap_targets(S) for S in both) \
+    if (node is not None and _contains(node, {"unwrap"})) or (any(site_names & _unwrap_targets(S) for S in both) and any(_unwrap_indirect(S) for S in both)) \
             or (st["kind"] == "unfold" and node is not None and any(_contains([R.body(r) for r in R.rules_named(S, node.get("n"))], {"unwrap"}) for S in both)):
         return "C08-unwrap-indirection"
     # operands of range / control operators reached through generics or sockets (parentheses and plain aliases are repaired)
@@ -184,9 +241,10 @@ def classify(fmt, st, before, after):
     if ((in_operand or any(site_names & _operand_rules(S) for S in both)) and any(_operand_indirection(S) for S in both)) \
             or (st["kind"] == "unfold" and node is not None and node.get("args") and any(_param_in_operand(S, node["n"]) for S in both)):
         return "C08-operand-through-generic-or-socket"
-    if "key" in path:
+    if "key" in path or any(site_names & _key_rules(S) for S in both):
         return "C08-member-key-indirection"
-    if st["kind"] == "unfold" and node is not None and node.get("args") and any(_forwards_param(S, node["n"]) for S in both):
+    if st["kind"] == "unfold" and node is not None and node.get("args") and any(
+            _forwards_param(S, nm) for S in both for nm in ({node["n"]} | site_names)):
         return "C08-generic-parameter-forwarding"
     if st["kind"] in ("split", "socket") and a.get("idx") and src[a["idx"] - 1]["kind"] == "group" and src[a["idx"] - 1]["params"]:
         return "C08-generic-group-increment"
@@ -194,9 +252,12 @@ def classify(fmt, st, before, after):
             len(R.rules_named(S, node["n"])) > 1 and R.rules_named(S, node["n"])[0]["kind"] == "group" for S in both):
         return "C08-generic-group-increment"
     if st["kind"] in ("extract", "unfold"):
+        alias_names = set(site_names)
+        if st["kind"] == "unfold" and node is not None and node.get("n"):
+            alias_names.add(node["n"])          # the rule whose reference is unfolded
         for S in both:
             for r in S:
-                if r["name"] in site_names and r["kind"] == "group":
+                if r["name"] in alias_names and r["kind"] == "group":
                     e = r["e"]
                     inner = e["g"]["galts"] if e["k"] == "sub" else [[e]]
                     if len(inner) == 1 and len(inner[0]) == 1 and inner[0][0]["k"] == "name":
